@@ -51,6 +51,7 @@ fn opts_for(case: &Case) -> Opts {
         check_size_limit: case.prop == "C15",
         message_cache: case.knobs.cache_enabled,
         encryption: case.knobs.encryption,
+        http_arm: case.http_arm,
     }
 }
 
@@ -72,6 +73,7 @@ pub fn run_sequential(case: &Case) -> RunOutput {
     crate::determinism::reset_hash_seeds();
     let sim = Sim::new(case.sim_config());
     let world = World::new(sim.clone(), dir.clone(), case.knobs.clone());
+    world.http_enabled.set(case.http_arm);
     let case_owned = case.clone();
     let w = world.clone();
     let result = sim.block_on(async move {
